@@ -447,7 +447,7 @@ fn gen(rng: &mut Rng, tier: &str) -> Vec<(String, Value)> {
     drop(exhaustive);
     // (b)/(c) structured random: 2-4 threads, 1-3 calls each, few distinct keys, some dubious; the class names the
     //     branches of the proof's case split the schedule reaches (computed on the shadow)
-    let n = if thorough { 4000 } else { 500 };
+    let n = if thorough { 4000 } else { 400 };
     for k in 0..n {
         let mut r = rng.fork();
         let rrdp = k % 2 == 1;
